@@ -137,7 +137,8 @@ def profiles_for(pid, tier):
         "C15": [("usage", dict(three, usage=True, w_close=12, w_release=10, w_sweep=5, w_bigjump=3), N(200, 2000))],
         "C16": [("blur", dict(three, usage=True, blur="rand", w_close=12, w_release=10, w_sweep=5, w_bigjump=3), N(200, 2000)),
                 ("binds", dict(base, usage=True, blur="rand", w_connect=20, w_reconnect=10, p_badcv=0.3, w_restart=2, w_sweep=3,
-                               w_bigjump=3), N(80, 600))],
+                               w_bigjump=3), N(80, 600)),
+                ("float-times", dict(_special="float-times"), N(60, 600))],
         "C17": [("malformed", dict(three, w_malformed=14), N(200, 2000)),
                 ("odd-strings", dict(base, apps=["a", "", "ü"], sides=["s1", "", "s\u0000x"], names=["1", "", "ñ", "²", "①"], w_allocate=8,
                                      client_mailboxes=["m1", ""], w_malformed=8), N(80, 600)),
@@ -200,6 +201,35 @@ def special_history(pid, profile, seed):
         return h, {}
     if kind == "exhaustive":
         return exhaustive_history(profile["L"], profile["_index"]), {}
+    if kind == "float-times":
+        # arrival times that are NOT multiples of 1/8 s (arbitrary doubles): implementation only, oracle only
+        b = r.choice([1, 7, 20, 60, 100, 777, 3600, 86400, r.randrange(1, 5000)])
+        t = 1.6e9 + r.random() * 1e6
+        ft = lambda: t * proto.TICKS
+        h = [{"op": "cfg", "rebooted": int(t) * proto.TICKS, "usage": True, "allow_list": True, "blur": b}]
+        c = 0
+        for k in range(r.randrange(2, 6)):
+            t += r.random() * r.choice([0.001, 1.0, 30.0, 500.0])
+            c += 1
+            side = "s%d" % (k % 2)
+            h += [{"op": "connect", "c": c},
+                  {"op": "recv", "c": c, "t": ft(), "msg": {"type": "bind", "appid": "a", "side": side, "client_version": ["py", "1"]}}]
+            t += r.random()
+            name = str(r.randrange(1, 4))
+            h.append({"op": "recv", "c": c, "t": ft(), "msg": {"type": "claim", "nameplate": name}, "fresh": "mb-%s" % name})
+            t += r.random() * 3
+            h.append({"op": "recv", "c": c, "t": ft(), "msg": {"type": "open", "mailbox": "mb-%s" % name}})
+            t += r.random() * 3
+            if r.random() < 0.7:
+                h.append({"op": "recv", "c": c, "t": ft(), "msg": {"type": "release", "nameplate": name}})
+            t += r.random() * 3
+            if r.random() < 0.6:
+                h.append({"op": "recv", "c": c, "t": ft(), "msg": {"type": "close", "mood": r.choice(["happy", "scary", None])}})
+            if r.random() < 0.5:
+                h.append({"op": "drop", "c": c})
+        t += info()["expirationTicks"] / proto.TICKS + r.random() * 100
+        h.append({"op": "sweep", "now": ft(), "fault": False})
+        return h, {"impl_only": True, "float_times": True}
     if kind == "late-claim":
         # allocate, the nameplate is retired behind the allocator's back, somebody re-creates the
         # name, and only then the allocator claims it
@@ -381,7 +411,7 @@ def _run_oracles(pid, tr, meta):
     elif pid == "C15":
         f += O.check_C15(tr)
     elif pid == "C16":
-        f += O.check_C16(tr)
+        f += O.check_C16_float(tr) if meta.get("float_times") else O.check_C16(tr)
     elif pid == "C17":
         f += O.check_C17(tr, welcome=json.loads(proto.welcome_json(tr.cfg)))
     elif pid == "C18":
